@@ -41,6 +41,8 @@ def configs(tier):
     for sizes, gt in [((1, 1), None), ((2, 1), None), ((1, 1, 1), [0, 1])]:
         out.append(dict(key=f"measured,ref={sizes},gt={gt}", mode="measured", sizes=list(sizes), gt=gt, maxu=1,
                         cost=50 * 9 ** (len(gt) if gt else len(sizes))))
+    # long redraw chains: one annotator, one unit, up to 24 consecutive duration draws that are too short
+    out.append(dict(key="custom,annotators=1,weights,maxu=1,redraws<=24", mode="custom", nann=1, weights=True, maxu=1, maxredraw=24, cost=600))
     # the same sampler object initialised twice on the same continuum object (other ground truth, continuum changed in between)
     out.append(dict(key="measured,re-initialised,ref=(1, 1, 1),gt=[0, 1]", mode="measured", sizes=[1, 1, 1], gt=[0, 1], maxu=1, reinit=True, cost=5000))
     if tier == "thorough":
@@ -63,6 +65,7 @@ def harness(cfg, ns):
 
     def h(ctx):
         rng = stubs.RNG(ctx, max_draws=80)
+        maxredraw = cfg.get("maxredraw", MAXREDRAW)
         ns.np.random = rng
         ns.np.std_calls = []
         s = sa.StatisticalContinuumSampler()
@@ -129,8 +132,8 @@ def harness(cfg, ns):
                 ctx.get_model()
             elif mu is dur_mu:
                 state["dur_draws"] += 1
-                if state["dur_draws"] > len(gt_names) * maxu + MAXREDRAW:
-                    raise core.Cut("duration-redraws>%d" % MAXREDRAW)
+                if state["dur_draws"] > len(gt_names) * maxu + maxredraw:
+                    raise core.Cut("duration-redraws>%d" % maxredraw)
             return v
         rng.normal = normal
         ADDS = []
